@@ -101,8 +101,36 @@ def strings_utf8(o):
 EDGE = [b'"', b'""', b'"x', b'x"', b'"""', b'%', b'%4', b'%zz', b'%E7%8B', b'%80', b'%C0%AF', b'=', b';', b'; ', b'&', b',', b',,', b' ', b'', b'%00', b'+', b'\\', b'%22', b'a%FF']
 
 
-def edge_cases():
+LONG = [('狼' * 40).encode(), b'%E7%8B%BC' * 40, ('é' * 70).encode(), b'a' * 127 + '狼'.encode(), b'a' * 126 + '😀'.encode() * 3, ('日本' * 33).encode(), b'x' * 300]      # long refused texts: error messages that quote them
+
+
+def long_and_mixed():
+    """values / keys longer than any message cap, in multi-byte UTF-8; and multipart forms whose parts share a name across kinds"""
     out = []
+    for e in LONG:
+        for tmpl in (b'id=%s&name=x', b'name=x&id=%s', b'%s=1&id=2', b'id=1&name=%s'):
+            out.append({'case': {'kind': 'url', 'tid': 0, 'ty': c09.CAT[0], 'input': (tmpl % e).hex()}, 'stream': 'long'})
+        for tmpl in (b'v=a&n=%s', b'v=a&n=1,%s', b'c=%s&i=1', b'c=x&i=%s', b'w=%s&z=1'):
+            tid = {b'v': 4, b'c': 6, b'w': 9}[tmpl[:1]]
+            out.append({'case': {'kind': 'url', 'tid': tid, 'ty': c09.CAT[tid], 'input': (tmpl % e).hex()}, 'stream': 'long'})
+        for tid in URL_EXT:
+            for tmpl in (b'f=%s&g=1', b'e=%s&o=', b'x=%s&y=1&z=', b'k=%s', b'%s=v', b'a=1&b=%s&v=1&w=true', b'n=%s&o='):
+                out.append({'case': {'kind': 'url', 'tid': tid, 'input': (tmpl % e).hex()}, 'stream': 'long'})
+        for tmpl in (b'a=1; n=%s', b'a=%s; tok=x', b'%s=1'):
+            out.append({'case': {'kind': 'cookie', 'tid': 0, 'ty': c11.CAT[0], 'input': (tmpl % e).hex()}, 'stream': 'long'})
+        out.append({'case': {'kind': 'setcookie', 'input': (b'/; Max-Age=' + e).hex()}, 'stream': 'long'})
+    F = lambda n, fn='f.bin', c=b'data': (n, fn, 'application/octet-stream', c)
+    T = lambda n, t=b'text': (n, None, None, t)
+    for tid, fields in c10.FIELDS.items():
+        names = [f[0] for f in fields] + ['unknown']
+        for n in names:
+            for parts in ([T(n), F(n)], [F(n), T(n)], [T(n), T(n)], [F(n), F(n), T(n)], [T(n), F(n), F(n)], [T(n), F(n, '', b'')], [F(n, '', b''), T(n)], [T(n, b''), F(n)]):
+                out.append({'case': {'kind': 'multipart', 'tid': tid, 'fields': fields, 'input': c10.encode('XbX', parts).hex()}, 'stream': 'mixed-names'})
+    return out
+
+
+def edge_cases():
+    out = long_and_mixed()
     for e in EDGE:
         try: e.decode('utf-8')
         except UnicodeDecodeError: continue
